@@ -224,7 +224,7 @@ theorem lookup_map_overrideBy (a b : Defs) (x : Name) (d : VarDef) (hx : x ∈ n
       · exact hx
 
 /-- in a block with distinct names, a name defined by a literal ends up with that literal -/
-theorem evalBlock_lookup_lit (w : World) (dir : Str) (pre : Defs) (x : Name) (v : Str) :
+theorem evalBlock_lookup_lit (w : World) (dir : Env → Str) (pre : Defs) (x : Name) (v : Str) :
     ∀ (e : Env) (c : Cache), (names pre).Nodup → pre.lookup x = some (.lit [.text v]) →
       get (evalBlock w dir pre e c).1 x = v := by
   induction pre with
